@@ -219,6 +219,11 @@ func batch[W any](t *testing.T, h Harness[W]) {
 	sum := Summary{Property: h.Property, Seed: seed, Policies: map[string]int{}, Faults: map[string]int{},
 		Probes: map[string]int{}, Counters: map[string]int{}, Stuck: -1, FirstIndex: start}
 	hashes := map[uint64]struct{}{}
+	var hashLog *os.File
+	if p := os.Getenv("VERIF_HASHLOG"); p != "" {
+		hashLog, _ = os.Create(p)
+		defer hashLog.Close()
+	}
 	t0 := time.Now()
 	for n := 0; n < count; n++ {
 		if budget > 0 && time.Since(t0).Seconds() > budget {
@@ -233,6 +238,9 @@ func batch[W any](t *testing.T, h Harness[W]) {
 		o := execOne(t, h, w, cfg)
 		sum.Runs++
 		sum.LastIndex = idx
+		if hashLog != nil {
+			fmt.Fprintf(hashLog, "%d %016x %d %d %q %v\n", idx, o.Res.TraceHash, o.Res.Steps, len(o.Res.Choices), o.Class, o.Res.Faults)
+		}
 		sum.Steps += int64(o.Res.Steps)
 		sum.Switches += int64(o.Res.Switches)
 		sum.Contended += int64(o.Res.Contended)
